@@ -78,6 +78,15 @@ pub fn judge(plan: &ExecPlan, stats: &mut Stats, use_cache: bool) -> (Vec<(Strin
         refs.push(v);
     }
     let r = execute(plan);
+    stats.fold(r.interleaving);
+    stats.fold(r.context_switches as u64);
+    for (t, items) in plan.tasks.iter().enumerate() {
+        for (k, it) in items.iter().enumerate() {
+            if !it.nondet {
+                stats.fold_str(&format!("{:?}", r.results[t][k]));
+            }
+        }
+    }
     stats.inc("executions");
     stats.add("compilations", plan.tasks.iter().map(|t| t.len() as u64).sum());
     stats.add("scheduler_steps", r.context_switches as u64);
